@@ -300,7 +300,7 @@ calls:
   - name: "c3"
     tag: "order"
     call: "target.TargetService.Order"
-    payload: '{"user_id": 7, "item_id": 9, "token": "{{.request.c3.preprocessor.u}}"}'
+    payload: '{"user_id": 9007199254740993, "item_id": 1152921504606846977, "token": "{{.request.c3.preprocessor.u}}"}'
     preprocessors:
       - type: "prepare"
         mapping: {"u": "request.c1.postprocessor.hello"}
@@ -339,6 +339,10 @@ scenarios:
 	var rowsUsed, orderRows []string
 	for _, call := range tgt.Calls() {
 		if o, ok := call.Req.(*server.OrderRequest); ok {
+			// integers a float64 cannot hold, written as bare JSON numbers in the payload text
+			if o.UserId != 9007199254740993 || o.ItemId != 1152921504606846977 {
+				fail("payload-number", "call Order was written with user_id 9007199254740993 and item_id 1152921504606846977; the server received %d and %d", o.UserId, o.ItemId)
+			}
 			// the third call has a preprocessor variable of its own that bears the same name ("u")
 			// as the first call's but is mapped to the first call's response
 			if strings.HasPrefix(o.Token, "Hello ") && strings.HasSuffix(o.Token, "!") {
